@@ -611,9 +611,13 @@ fn shrink(pi: &PiConsts, ops: &[BOp], v: &BViolation) -> (Vec<BOp>, BViolation) 
 }
 
 fn replay_value(seed: u64, ops: &[BOp], v: &BViolation, meta: Value) -> Value {
-    json!({"format": "block-ciphers-sim-replay/1", "property": "C14", "engine": "c14", "seed": seed,
+    let mut j = json!({"format": "block-ciphers-sim-replay/1", "property": "C14", "engine": "c14", "seed": seed,
            "ops": ops.iter().map(|o| o.to_json()).collect::<Vec<_>>(),
-           "violation": {"property": "C14", "class": v.class, "step": v.step, "detail": v.detail}, "meta": meta})
+           "violation": {"property": "C14", "class": v.class, "step": v.step, "detail": v.detail}, "meta": meta});
+    if !crate::engine::build_label().is_empty() {
+        j["build"] = json!(crate::engine::build_label());
+    }
+    j
 }
 
 pub fn main(args: &[String]) {
@@ -722,7 +726,7 @@ pub fn main(args: &[String]) {
             continue;
         }
         let _ = std::fs::create_dir_all(&replay_dir);
-        let base = format!("{}/C14-{}-{}", replay_dir, seed, i);
+        let base = format!("{}/C14-{}{}-{}", replay_dir, if crate::engine::build_label().is_empty() { String::new() } else { format!("{}-", crate::engine::build_label()) }, seed, i);
         let _ = std::fs::write(format!("{}.orig.json", base), serde_json::to_string_pretty(&replay_value(*rs, ops, v, json!({"run": i, "minimised": false}))).unwrap());
         let (mops, mv) = shrink(&pi, ops, v);
         let path = format!("{}.min.json", base);
